@@ -239,20 +239,26 @@ def run(ctx):
     opt_lists = [(c.name, f) for c, fs in F.items() for f, t in fs if t.endswith('?*')]
     if not opt_lists:
         raise AnalysisError('grammar has no optional-element list any more; R15.3 premise changed')
+    from ..struct import called_helpers
     for fi in ctx.repo.funcs('fst_core', '_unmake_fst_tree'):
+        group = called_helpers(ctx.repo, fi, 2)          # the function and the private workers it calls (wrapper + worker split)
         # both links are stored None in the descent (any variable names): some `<x>.a = ... = None` and some `<y>.f = ... = None`
         none_attrs = set()
-        for n in ast.walk(fi.node):
+        for n in [x for g in group for x in ast.walk(g.node)]:
             if isinstance(n, ast.Assign) and isinstance(n.value, ast.Constant) and n.value.value is None:
                 none_attrs |= {t.attr for t in n.targets if isinstance(t, ast.Attribute)}
         ctx.check('R15.3', {'a', 'f'} <= none_attrs, fi.module, fi.qualname, 'f.a = a.f = None',
                   'a detached node must have both links cleared, otherwise walk() cannot tell it is dead', fi.lineno)
-        via_fields = any(isinstance(n, ast.For) and isinstance(n.iter, ast.Attribute) and n.iter.attr == '_fields' for n in ast.walk(fi.node))
+        via_fields = any(isinstance(n, ast.For) and isinstance(n.iter, ast.Attribute) and n.iter.attr == '_fields' for g in group for n in ast.walk(g.node))
         ctx.check('R15.3', via_fields, fi.module, fi.qualname, 'for field in a._fields',
                   'children must be enumerated through the grammar (_fields)', fi.lineno)
-        tests = [n for n in walk_no_nested(fi.node) if isinstance(n, ast.Call) and call_name(n) == 'isinstance' and len(n.args) == 2
-                 and isinstance(n.args[0], ast.Subscript) and norm(n.args[0].value) == 'child']
-        par = parent_map(fi.node)
+        # the filter on a list-valued field: `isinstance(<list>[0], ...)` (whatever the list local is called)
+        tests = [n for g in group for n in walk_no_nested(g.node) if isinstance(n, ast.Call) and call_name(n) == 'isinstance' and len(n.args) == 2
+                 and isinstance(n.args[0], ast.Subscript) and isinstance(n.args[0].value, ast.Name) and
+                 isinstance(n.args[0].slice, ast.Constant) and n.args[0].slice.value == 0]
+        par = {}
+        for g in group:
+            par.update(parent_map(g.node))
         ok = bool(tests)
         for t in tests:
             neg = isinstance(par.get(t), ast.UnaryOp) and isinstance(par[t].op, ast.Not)
